@@ -182,6 +182,32 @@ def extract():
     srv_conn = fn_body(src, "handle_connection")
     asrc = test_mod_cut(strip(read("src/async_server.rs")))
     f["serversEchoViewQuery"] = echo_ok(srv_conn) and echo_ok(fn_body(asrc, "handle_connection"))
+    # ---- derive-generated dispatch (repe-derive): how the arms test and forward `tail`
+    dsrc = strip(read("repe-derive/src/lib.rs"))
+    arms = " ".join(fn_body(dsrc, "build_field_match_arms").split())
+    i_n = arms.find("if field.attrs.nested {")
+    if i_n < 0: raise ExtractError("derive: nested / plain field branches not found")
+    j_n = match_brace(arms, arms.find("{", i_n))
+    nested_branch = arms[i_n:j_n]
+    m_else = re.match(r"\s*else\s*\{", arms[j_n:])
+    if not m_else: raise ExtractError("derive: plain field branch not found")
+    k = j_n + m_else.end() - 1
+    leaf_branch = arms[k:match_brace(arms, k)]
+    meth = " ".join(fn_body(dsrc, "build_method_match_arms").split())
+    exp = " ".join(fn_body(dsrc, "expand_repe_struct").split())
+    tails = lambda t: len(re.findall(r"\btail\b", t))
+    ok = True
+    # nested: "itself" iff `tail.is_empty()`, else forward `tail` unchanged – and nothing else looks at `tail`
+    ok &= len(re.findall(r"if tail\.is_empty\(\) \{", nested_branch)) == 1 and tails(nested_branch) == 2
+    ok &= re.search(r"repe_handle\(&mut self\.#ident, tail, body\)", nested_branch) is not None
+    ok &= len(re.findall(r"repe_handle\(&mut self\.#ident, &\[\], None\)", nested_branch)) == 1
+    # plain fields and methods: any further token is an error
+    ok &= len(re.findall(r"if !tail\.is_empty\(\) \{ return Err\(#repe_path::StructError::InvalidSubpath", leaf_branch)) == 1 and tails(leaf_branch) == 1
+    ok &= len(re.findall(r"if !tail\.is_empty\(\) \{ return Err\(#repe_path::StructError::InvalidSubpath", meth)) == 2 and tails(meth) == 2
+    # the head is the first segment, looked up literally
+    ok &= re.search(r"let \(head, tail\) = segments\.split_first\(\)\.unwrap\(\); match \*head \{", exp) is not None and tails(exp) == 1
+    ok &= re.search(r"if segments\.is_empty\(\) \{", exp) is not None
+    f["deriveTailTests"] = bool(ok)
     # the trait default itself
     tr = impl_block(src, r"pub trait HandlerErased\s*:\s*Send \+ Sync\s*\{")
     if not re.fullmatch(r"\s*self\.handle_with_ctx\(&view\.to_message\(\), ctx\)\s*", fn_body(tr, "handle_view")): raise ExtractError("HandlerErased::handle_view default not recognised")
@@ -211,7 +237,8 @@ def render(f):
     L.append(f"    structGate := {gate_s(f['structGate'])},")
     L.append(f"    structEmptyBodyIsRead := {b(f['structEmptyBodyIsRead'])},")
     L.append(f"    adapterGate := {gate_s(f['adapterGate'])},")
-    L.append(f"    serversEchoViewQuery := {b(f['serversEchoViewQuery'])} }}")
+    L.append(f"    serversEchoViewQuery := {b(f['serversEchoViewQuery'])},")
+    L.append(f"    deriveTailTests := {b(f['deriveTailTests'])} }}")
     L.append("end Repe.Gen")
     return "\n".join(L) + "\n"
 
